@@ -4,7 +4,7 @@ without a model raises Unsupported."""
 import re, itertools
 import z3
 from interp import *
-from interp import Machine
+from interp import Machine, RcRef
 from sym import SymVal, smap, lift, Infeasible
 from xmltree import XDoc, XNode, parse_xml
 import xml.parsers.expat
@@ -278,6 +278,33 @@ class SMI(Machine):
                 d0.data = {'kind': chosen}
                 self.events.append(('err_kind', chosen))
             return Adt('ErrorKind', ENUMS['ErrorKind'].index(d0.data['kind']), [])
+        if 'as IntoFuture>::into_future' in c:
+            return a0
+        if c.startswith('Pin::') and meth in ('new_unchecked', 'new'):
+            return [a0]
+        mfut = re.match(r'<\{async fn body of ([\w:]+)(?:<.*>)?\(\)\} as Future>::poll$', c0)
+        if mfut:
+            fname = mfut.group(1).split('::')[-1]
+            cands = [b for n, b in self.b.items() if b.kind == 'fn' and (n == fname + '::{closure#0}' or n.endswith('::' + fname + '::{closure#0}'))]
+            if len(cands) == 1:
+                return self.run(cands[0], args)
+        mch = re.match(r'(?:core::char::methods::<impl char>|char::methods::<impl char>|char)::(\w+)$', c)
+        if mch and isinstance(d0, str) and len(d0) == 1:
+            f = mch.group(1)
+            table = {'is_uppercase': str.isupper, 'is_lowercase': str.islower, 'is_alphabetic': str.isalpha, 'is_numeric': str.isnumeric,
+                     'is_alphanumeric': str.isalnum, 'is_whitespace': str.isspace, 'is_ascii_uppercase': lambda ch: 'A' <= ch <= 'Z',
+                     'is_ascii_lowercase': lambda ch: 'a' <= ch <= 'z', 'is_ascii_digit': lambda ch: '0' <= ch <= '9',
+                     'is_ascii_alphabetic': lambda ch: ch.isascii() and ch.isalpha(), 'is_ascii_alphanumeric': lambda ch: ch.isascii() and ch.isalnum(),
+                     'is_ascii': str.isascii, 'is_ascii_punctuation': lambda ch: ch.isascii() and not ch.isalnum() and not ch.isspace() and ch.isprintable(),
+                     'is_ascii_whitespace': lambda ch: ch in ' \t\n\x0c\r', 'is_control': lambda ch: ord(ch) < 32 or 127 <= ord(ch) < 160}
+            if f in table:
+                return bool(table[f](d0))
+            if f in ('to_ascii_uppercase', 'to_ascii_lowercase'):
+                return d0.upper() if f.endswith('uppercase') and d0.isascii() else d0.lower() if d0.isascii() else d0
+            if f in ('to_uppercase', 'to_lowercase'):
+                return It(iter(list(d0.upper() if f == 'to_uppercase' else d0.lower())))
+            if f == 'is_digit':
+                return d0 in '0123456789abcdefghijklmnopqrstuvwxyz'[:args[1]] or d0.lower() in '0123456789abcdefghijklmnopqrstuvwxyz'[:args[1]]
         if c in ('log::max_level', 'max_level'):
             return Adt('LevelFilter', 0, [])       # no logger installed: logging is off
         if c.startswith('log::__private_api::'):
@@ -308,9 +335,21 @@ class SMI(Machine):
         if meth == 'from_residual' and c0.startswith('<Option<'):
             return NONE()
         if meth in ('into', 'from') and re.search(r'\b(Rc|Box|Arc)<', c0):
+            return RcRef([a0], 0) if re.search(r'\b(Rc|Arc)<', c0) else Ref([a0], 0)
+        if c in ('Rc::new', 'Arc::new'):
+            return RcRef([a0], 0)
+        if c == 'Box::new':
             return Ref([a0], 0)
-        if c in ('Rc::new', 'Box::new', 'Arc::new'):
-            return Ref([a0], 0)
+        if meth == 'ptr_eq' and re.match(r'(Rc|Arc)::', c) and len(args) == 2:
+            def target(v):
+                # &Rc<T> -> the Rc cell (identity of the allocation)
+                while isinstance(v, Ref) and isinstance(v.get(), Ref):
+                    v = v.get()
+                return v
+            x, y = self.to_rc(args[0]), self.to_rc(args[1])
+            if not (isinstance(x, RcRef) and isinstance(y, RcRef)):
+                raise Unsupported('Rc::ptr_eq on values that are not tracked Rc allocations')
+            return x is y or (x.cont is y.cont and x.key == y.key)
         if c == 'Box::new_uninit':
             return Ref([None], 0)
         if meth == 'from' and re.match(r'<[iu](8|16|32|64|128|size) as From<[iu](8|16|32|64|128|size)>>::from', c):
@@ -326,7 +365,7 @@ class SMI(Machine):
         if meth == 'as_str' and isinstance(d0, Url):
             return d0.s
         if meth == 'clone':
-            return clone_val(d0)
+            return clone_val(self.to_rc(a0))
         if meth == 'clone_from':
             a0.set(clone_val(deref(args[1])))
             return ()
@@ -396,7 +435,7 @@ class SMI(Machine):
             if meth == 'or':
                 return d0 if some else args[1]
             if meth in ('cloned', 'copied'):
-                return SOME(clone_val(deref(v))) if some else NONE()
+                return SOME(clone_val(self.to_rc(v))) if some else NONE()
             if meth == 'as_ref':
                 return SOME(Ref(d0.fields, 0)) if some else NONE()
             if meth == 'as_mut':
@@ -713,6 +752,12 @@ class SMI(Machine):
             if pres is True or self.truth(pres):
                 yield XNode(n.doc, i)
 
+    def to_rc(self, v):
+        """follow references down to the value, but stop at an Rc/Arc allocation (cloning an Rc shares it)"""
+        while isinstance(v, Ref) and not isinstance(v, RcRef):
+            v = v.get()
+        return v
+
     def as_iter(self, v, by_ref=False):
         """IntoIterator of a runtime value"""
         o = deref(v)
@@ -863,7 +908,7 @@ class SMI(Machine):
                     x = it.next()
                     if x is None:
                         return
-                    yield clone_val(deref(x))
+                    yield clone_val(self.to_rc(x))
             return It(g())
         if meth in ('take', 'skip'):
             k = args[1]
@@ -1070,8 +1115,20 @@ class SMI(Machine):
             return RString(s0)
         if meth in ('starts_with', 'ends_with', 'contains'):
             pat = as_str(args[1])
-            f = {'starts_with': str.startswith, 'ends_with': str.endswith, 'contains': lambda a, b: b in a}[meth]
-            return self.smap(f, s0, pat)
+            if isinstance(pat, (str, SymVal)):
+                f = {'starts_with': lambda a, b: a.startswith(b), 'ends_with': lambda a, b: a.endswith(b), 'contains': lambda a, b: b in a}[meth]
+                return self.smap(f, s0, pat)
+            # a char predicate (fn item or closure) as pattern
+            s = self.cstr(s0)
+            chars = list(s)
+            if meth == 'starts_with':
+                chars = chars[:1]
+            elif meth == 'ends_with':
+                chars = chars[-1:]
+            for ch in chars:
+                if self.truth(self.call_closure(args[1], [ch])):
+                    return True
+            return False
         if meth in ('eq', 'ne'):
             return NotImplemented
         if meth == 'replace':
